@@ -129,31 +129,35 @@ CLASSES = [
           lambda i: i.get("shell") in ("bash", "tcsh") and (i["env"].get("ci") or i["env"].get("unfiltered")),
           _neutral_ci,
           "bash/tcsh replace several candidates by their common value prefix even when it does not extend the typed word (case-insensitive matching or CARAPACE_UNFILTERED): the emitted text is shorter than / different from what was typed, or empty"),
+    Class("bash_common_prefix_control", ("C02", "C04"), ("value",),
+          lambda i: i.get("shell") in ("bash", "tcsh") and _has(i, TCL, ("value", "display")),
+          lambda i: _map_value_fields(i, _strip(TCL), ("value", "display")),
+          "bash/tcsh compute the common prefix of several candidates on the unsanitised texts: candidates that share only a leading tab/CR/LF are replaced by that prefix, which is then sanitised to nothing"),
     Class("bash_qmark", ("C03",), ("value",), both(sh("bash"), lambda i: _has(i, "?")),
           lambda i: _map_value_fields(i, _repl("?", "q"), ("value",)),
           "bash: a value containing `?` (glob) and no other special character is emitted unquoted"),
-    Class("tcsh_brace", ("C02", "C03"), ("value",), both(sh("tcsh"), lambda i: _has(i, "{}")),
+    Class("tcsh_brace", ("C02", "C03", "C04", "C06"), ("value",), both(sh("tcsh"), lambda i: _has(i, "{}")),
           lambda i: _map_value_fields(i, _repl("{}"), ("value",)),
           "tcsh: `{` and `}` are deleted from the value"),
-    Class("oil_unquoted", ("C02", "C03", "C05"), ("value",), sh("oil"), _oil_neutral,
+    Class("oil_unquoted", ("C02", "C03", "C05", "C06"), ("value",), sh("oil"), _oil_neutral,
           "oil: the value is emitted without any quoting (blanks, quotes, `$`, globs, operators stay active)"),
-    Class("nushell_tab", ("C02", "C03"), ("value",), both(sh("nushell"), lambda i: _has(i, "\t")),
+    Class("nushell_tab", ("C02", "C03", "C05", "C06"), ("value",), both(sh("nushell"), lambda i: _has(i, "\t")),
           lambda i: _map_value_fields(i, _strip("\t"), ("value",)),
           "nushell: a tab inside the value is neither dropped nor quoted (the word is split)"),
-    Class("powershell_squote", ("C02", "C03", "C05"), ("value",), both(sh("powershell"), lambda i: _has(i, "'")),
+    Class("powershell_squote", ("C02", "C03", "C05", "C06"), ("value",), both(sh("powershell"), lambda i: _has(i, "'")),
           lambda i: _map_value_fields(i, _repl("'"), ("value",)),
           "powershell: a single quote in the value is emitted bare, and not doubled inside '...'"),
-    Class("powershell_cr", ("C02", "C03", "C04", "C05"), ("value",), both(sh("powershell"), lambda i: _has(i, "\r", ("value", "display", "description"))),
+    Class("powershell_cr", ("C02", "C03", "C04", "C05", "C06"), ("value",), both(sh("powershell"), lambda i: _has(i, "\r", ("value", "display", "description"))),
           lambda i: _map_value_fields(i, _strip("\r")),
           "powershell: CR is kept in value, display and description"),
-    Class("xonsh_squote", ("C02", "C03", "C05"), ("value",), both(sh("xonsh"), lambda i: _has(i, "'")),
+    Class("xonsh_squote", ("C02", "C03", "C05", "C06"), ("value",), both(sh("xonsh"), lambda i: _has(i, "'")),
           lambda i: _map_value_fields(i, _repl("'"), ("value",)),
           "xonsh: `'` becomes `\\'` and is then wrapped in r'...': reads back with the backslash"),
-    Class("xonsh_trailing_backslash", ("C02", "C03", "C05"), ("value",),
+    Class("xonsh_trailing_backslash", ("C02", "C03", "C05", "C06"), ("value",),
           both(sh("xonsh"), lambda i: any(v["value"].rstrip("\n\t").endswith("\\") for v in i.get("values") or [])),
           lambda i: _map_value_fields(i, lambda s: s + "x" if s.rstrip("\n\t").endswith("\\") else s, ("value",)),
           "xonsh: a value ending in a backslash gives r'...\\' which is not a complete literal"),
-    Class("xonsh_cr", ("C02", "C03", "C04", "C05"), ("value",), both(sh("xonsh"), lambda i: _has(i, "\r", ("value", "display"))),
+    Class("xonsh_cr", ("C02", "C03", "C04", "C05", "C06"), ("value",), both(sh("xonsh"), lambda i: _has(i, "\r", ("value", "display"))),
           lambda i: _map_value_fields(i, _strip("\r"), ("value", "display")),
           "xonsh: CR is kept in the value and display"),
     Class("xonsh_display_unsanitised", ("C04",), ("value",), both(sh("xonsh"), lambda i: _has(i, "\n\r", ("display",))),
